@@ -1,8 +1,14 @@
 #!/usr/bin/env python3
 """Imports sub-agent deliverables /tmp/seed/<ID>/out/{patch,demo,meta}<i> into /verif/seeded/<ID>-<i>/."""
 import json, os, shutil, sys, glob
-for pid in sys.argv[1:]:
-    out = f"/tmp/seed/{pid}/out"
+args = sys.argv[1:]
+src, wave = "/tmp/seed", ""
+if args and args[0] == "--wave":  # tools/import_seeded.py --wave 5 C01 ...  reads /tmp/seed5/<ID>/out, writes seeded/<ID>-w5-<i>
+    wave = "w" + args[1] + "-"
+    src = "/tmp/seed" + args[1]
+    args = args[2:]
+for pid in args:
+    out = f"{src}/{pid}/out"
     for i in (1, 2, 3):
         pf = f"{out}/patch{i}.diff"
         if not os.path.exists(pf):
@@ -11,7 +17,7 @@ for pid in sys.argv[1:]:
         mf = f"{out}/meta{i}.json"
         if not demos or not os.path.exists(mf):
             print(pid, i, "incomplete"); continue
-        d = f"/verif/seeded/{pid}-{i}"
+        d = f"/verif/seeded/{pid}-{wave}{i}"
         os.makedirs(d, exist_ok=True)
         shutil.copy(pf, f"{d}/patch.diff")
         shutil.copy(demos[0], f"{d}/{os.path.basename(demos[0])}")
